@@ -8,6 +8,7 @@ package mlang
 import (
 	"encoding/json"
 	"fmt"
+	"math"
 	"regexp"
 	"strconv"
 	"strings"
@@ -209,7 +210,7 @@ func (r *renderer) expr(n *Node) string {
 	case "int":
 		var v int64
 		_ = json.Unmarshal(n.V, &v)
-		return strconv.FormatInt(v, 10)
+		return strconv.FormatInt(EdgeInt(v), 10)
 	case "float":
 		var v [2]int64
 		_ = json.Unmarshal(n.V, &v)
@@ -470,4 +471,38 @@ func RenderExpr(n *Node, o RenderOpts) (string, error) {
 	r := &renderer{p: &Program{}, o: o}
 	s := r.expr(n)
 	return s, r.err
+}
+
+// EdgeInt maps the model's sentinel literals (TLC integers are 32 bit; every |v| > 1e9 is "outside the model" there)
+// to the 64-bit boundary values they stand for.  Other values are themselves.
+func EdgeInt(v int64) int64 {
+	neg := v < 0
+	a := v
+	if neg {
+		a = -v
+	}
+	var r int64
+	switch a {
+	case 2000000001:
+		if neg {
+			return math.MinInt64
+		}
+		return math.MaxInt64
+	case 2000000002:
+		r = 1 << 53
+	case 2000000003:
+		r = 1<<53 + 1
+	case 2000000004:
+		r = 1 << 62
+	case 2000000005:
+		r = 3037000500 // just above sqrt(2^63)
+	case 2000000006:
+		r = 1 << 32
+	default:
+		return v
+	}
+	if neg {
+		return -r
+	}
+	return r
 }
